@@ -61,22 +61,15 @@ impl InstanceState {
                 if change_kind == ChangeKind::Alive {
                     self.instance_state = InstanceStateKind::Alive;
                     self.most_recent_disposed_generation_count += 1;
+                    // The instance is reborn: it is NEW again for the application
+                    self.view_state = ViewStateKind::New;
                 }
             }
             InstanceStateKind::NotAliveNoWriters => {
                 if change_kind == ChangeKind::Alive {
                     self.instance_state = InstanceStateKind::Alive;
                     self.most_recent_no_writers_generation_count += 1;
-                }
-            }
-        }
-
-        match self.view_state {
-            ViewStateKind::New => (),
-            ViewStateKind::NotNew => {
-                if change_kind == ChangeKind::NotAliveDisposed
-                    || change_kind == ChangeKind::NotAliveUnregistered
-                {
+                    // The instance is reborn: it is NEW again for the application
                     self.view_state = ViewStateKind::New;
                 }
             }
